@@ -9,7 +9,7 @@
      account-level key. *)
 From Coq Require Import ZArith Bool String List Lia.
 From Verif Require Import Lib.Bytes Gen.GenNetworks Gen.GenWalletCfg Model.WalletKeys Proofs.WalletKeys
-  Proofs.WalletKeysBook.
+  Proofs.WalletKeysBook Proofs.WalletKeysTables.
 Import ListNotations.
 Open Scope Z_scope.
 
@@ -31,10 +31,12 @@ Proof. intros [] []; simpl; split; intros H; try reflexivity; try discriminate. 
 Lemma wtype_eqb_neq : forall a b, a <> b -> wtype_eqb a b = false.
 Proof. intros a b H. destruct (wtype_eqb a b) eqn:E; [apply wtype_eqb_eq in E; contradiction | reflexivity]. Qed.
 
-Lemma not_master_guard : forall c, w_root_master c = false ->
-  (negb (w_root_private c) || negb (w_root_depth c =? 0))%bool = true.
+(* the guard of the source (regenerated) fires for every main key that is not a private master of depth 0 *)
+Lemma not_master_guard : forall c wt', w_root_master c = false -> wtype_eqb wt' (w_wt c) = false ->
+  kfp_witness_guard true (w_root_private c) (w_root_depth c =? 0) (negb (wtype_eqb wt' (w_wt c))) false = true.
 Proof.
-  intros c H. unfold w_root_master in H. destruct (w_root_private c); simpl in *; [rewrite H; reflexivity | reflexivity].
+  intros c wt' H E. rewrite kfp_witness_guard_frozen. unfold spec_kfp_witness_guard. rewrite E.
+  unfold w_root_master in H. destruct (w_root_private c); destruct (w_root_depth c =? 0); simpl in *; congruence.
 Qed.
 
 (* ------------------------------------------------------------------ another witness type *)
@@ -44,7 +46,7 @@ Theorem kfp_refuses_foreign_witness_type : forall (w : wstate) upath full lo acc
 Proof.
   intros w upath full lo acct ai chg wt net n Hm Hw Hn. unfold lib_keys_for_path.
   destruct n as [|extra]; [contradiction|].
-  unfold req_wt in Hw. rewrite (not_master_guard _ Hm), (wtype_eqb_neq _ _ Hw). reflexivity.
+  unfold req_wt in Hw. rewrite (not_master_guard _ _ Hm (wtype_eqb_neq _ _ Hw)). reflexivity.
 Qed.
 
 Theorem new_keys_refuses_foreign_witness_type : forall (w : wstate) acct chg wt net n,
@@ -109,7 +111,8 @@ Qed.
 Theorem new_account_needs_private_master : forall (w : wstate) acct wt net,
   w_root_master (ws_cfg w) = false -> lib_new_account X derive w acct wt net = (w, None).
 Proof.
-  intros w acct wt net Hm. unfold lib_new_account. unfold w_root_master in Hm.
+  intros w acct wt net Hm. unfold lib_new_account. rewrite new_account_guard_frozen. unfold spec_new_account_guard.
+  unfold w_root_master in Hm.
   destruct (w_root_depth (ws_cfg w) =? 0); destruct (w_root_private (ws_cfg w)); simpl in *; try discriminate; reflexivity.
 Qed.
 
@@ -124,8 +127,7 @@ Theorem kfp_refuses_foreign_network_or_account : forall (w : wstate) upath full 
 Proof.
   intros w upath full lo acct ai chg wt net n Hg [Hd Ha] Hn Hr. unfold lib_keys_for_path.
   destruct n as [|extra]; [contradiction|].
-  destruct ((negb (w_root_private (ws_cfg w)) || negb (w_root_depth (ws_cfg w) =? 0)) &&
-            negb (wtype_eqb (opt_default (w_wt (ws_cfg w)) wt) (w_wt (ws_cfg w))))%bool; [reflexivity|].
+  destruct (kfp_witness_guard _ _ _ _ _); [reflexivity|].
   rewrite Hg, Ha. simpl.
   assert (D : (w_root_depth (ws_cfg w) =? 0) = false) by (apply Z.eqb_neq; exact Hd).
   rewrite D. simpl. unfold req_net, req_acct in Hr.
